@@ -155,7 +155,9 @@ def check_gauss(rep, pdb, key):
 
 
 def run(rep, pdb, tier):
-    solve_fns = [f for f in pdb.local_fns() if f["file"] == "src/matrix/solve.rs"]
+    solve = ("max_abs_in_column", "backsolve", "partial_pivot", "gauss_with_pivot", "solve_basic", "lu_decomp_in_place", "solve_lu", "determinant", "inverse")
+    from .common import self_adt
+    solve_fns = [f for f in pdb.local_fns() if f["file"] == "src/matrix/solve.rs" or (self_adt(f) == "matrix::Matrix" and f.get("name") in solve)]
     n_sites = rule_index_kinds(rep, pdb, solve_fns)
     n_cmp = rule_magnitude(rep, pdb, ["%s::solve_basic" % M, "%s::solve_lu" % M])
     # ---- Gaussian elimination
